@@ -27,8 +27,8 @@ Fixpoint be_bytes (n : nat) (x : N) : list N :=
 (* ---------------------------------------------------------------- RFC 9000 section 16 *)
 (* Table 4: 2MSB 00/01/10/11 -> length 1/2/4/8 *)
 Definition vlen (first : N) : nat :=
-  match first / 64 with
-  | 0 => 1%nat | 1 => 2%nat | 2 => 4%nat | _ => 8%nat
+  match (first / 64)%N with
+  | 0%N => 1%nat | 1%N => 2%nat | 2%N => 4%nat | _ => 8%nat
   end.
 
 Definition vlen_of_first (bs : list N) : nat :=
@@ -47,9 +47,9 @@ Definition vdecode (bs : list N) : option (N * list N) :=
 
 (* the smallest of the four lengths whose usable bits hold v (Table 4, column Range) *)
 Definition vsize (v : N) : nat :=
-  if v <? 64 then 1%nat
-  else if v <? 16384 then 2%nat
-  else if v <? 1073741824 then 4%nat
+  if (v <? 64)%N then 1%nat
+  else if (v <? 16384)%N then 2%nat
+  else if (v <? 1073741824)%N then 4%nat
   else 8%nat.
 
 (* the two-bit prefix announcing a length *)
